@@ -348,9 +348,18 @@ def tgroup(j):
     c = j["case"]; row = j["row"]
     ptype = "secular" if c["text"].startswith("Secular") else "chebyshev" if c["text"].startswith("Chebyshev") else "monomial"
     cls = c["cls"] if c["cls"] in SPECIAL_CLS else "generic"
+    if cls == "generic" and row["a"] == "s" and row.get("b") and row.get("o") is not None:
+        # Jacobi-style iterations (-b) with an explicit output precision: the Jacobi packets never ask for more precision
+        # (best_approx is not set after a regeneration), whatever the other switches are -- round 6 triage
+        return "generic:%s:alg=s:jacobi-with-digits" % ptype
+    if cls == "generic" and row["a"] == "s" and row.get("c") and row["G"] == "a":
+        # crude approximation mode with goal approximate: mps_improve has nothing it can refine and no cap (exact input)
+        return "generic:%s:alg=s:crude-approximate" % ptype
     if row.get("D", "n") != "n" and cls == "generic":
-        # real/imaginary detection (-D) is what keeps these runs from stopping, whatever the other switches are
-        return "generic:%s:alg=%s:detect=real/imag" % (ptype, row["a"])
+        # real/imaginary detection (-D) is what keeps these runs from stopping, whatever the other switches are;
+        # asking for more output digits than the input has is a cause of its own (nothing stops the mp loop at the input precision)
+        beyond = row.get("i") is not None and row.get("o") is not None and int(row["o"]) > int(row["i"])
+        return "generic:%s:alg=%s:detect=real/imag%s" % (ptype, row["a"], ":digits-beyond-input" if beyond else "")
     return "%s:%s:alg=%s:G=%s:searchset=%s:detect=%s" % (cls, ptype, row["a"], row["G"], "plane" if row.get("S", "a") == "a" else "restricted",
                                                      "none" if row.get("D", "n") == "n" else "real/imag")
 
@@ -401,11 +410,50 @@ def trace_line(job):
                                                max(0, int(mp.group(1))), ferr, finc, 1 if job["row"].get("m") else 0, " ".join(toks))
 
 
+XTAGS = {"seceq", "cd-f", "cd-d", "pre", "pre-fpe", "back", "swd", "regfail", "starts", "cleanerr", "it-f", "it-d", "it-m", "it-fpe", "stop",
+         "avoid", "switch", "raise", "regraise", "reg1fail", "cleanup"}
+
+
+def xtrace_line(job):
+    """one line for bin/total, extended secular skeleton (Total.check_x, coq/Total/SecExtAccept.v):
+    'X max_pack max_it mpwp_max goal in_prec ferr lastphase avoid kind startphase crude jacobi canimprove ; tokens'
+    tokens = the EVX lines of harness/c03_solve.c in log order"""
+    out = job["r"]["out"]
+    if not re.search(r"^EVXEND algorithm=1$", out, re.M): return None         # MPS_ALGORITHM_SECULAR_GA
+    me = re.search(r"^EVEND max_pack=(\d+) max_it=(\d+) mpwp_max=(\d+)", out, re.M)
+    mp = re.search(r"^POLY type=(\S+) .* prec=(-?\d+)", out, re.M)
+    if not me or not mp: return None
+    toks = []
+    for t, v in re.findall(r"^EVX (\S+) (-?\d+)$", out, re.M):
+        if t == "improve": toks.append("improve:" + v)
+        elif t in XTAGS: toks.append(t)
+    ferr = job["klass"] == "solve-err"
+    lp = "0"
+    mm = re.search(r"^META .* lastphase=(\d+)", out, re.M)
+    if mm and not ferr: lp = mm.group(1)
+    ptype = mp.group(1)
+    kind = "s" if ptype == "mps_secular_equation" else "m" if ptype == "mps_monomial_poly" else "o"
+    row = job["row"]
+    sp = {"n": "0", "m": "3"}.get(job.get("phase_env") or "", "2" if row.get("t") == "d" else "1")
+    return "X %s %s %s %s %d %d %s %d %s %s %d %d %d ; %s" % (
+        me.group(1), me.group(2), me.group(3), GOALN[row["G"]], max(0, int(mp.group(2))), ferr, lp, 1 if row.get("m") else 0, kind, sp,
+        1 if row.get("c") else 0, 1 if row.get("b") else 0, 0 if kind == "o" else 1, " ".join(toks))
+
+
 def run(ctx):
     ctx.prove()
     ctx.proof_violation_if_broken()
-    binary = ctx.compile_harness(["vf_solve.c"], "vf_solve", mode="san")
+    # harness/c03_solve.c = harness/vf_solve.c (included unchanged) + C03_PHASE override + EVX event lines
+    binary = ctx.compile_harness(["c03_solve.c"], "c03_solve", mode="san")
     env = ctx.san_env()
+    # known/C03.json is the source of the C03 entries of known_findings.json (lib/mkmanifest.py merges it); it is read here as
+    # well so that the check does not depend on when the merge was last run
+    try:
+        frag = json.load(open(os.path.join(vf.VERIF, "known", "C03.json"))).get("findings", [])
+        have = {k.get("signature") for k in ctx.known}
+        ctx.known += [dict(f, property="C03") for f in frag if f.get("status", "open") == "open" and f.get("signature") not in have]
+    except Exception as ex:
+        ctx.log("known/C03.json not read: %s" % ex)
     thorough = not ctx.quick()
     FLOOR = 20.0
     rng = ctx.rng
@@ -423,7 +471,7 @@ def run(ctx):
         rp = json.load(open(ctx.replay))
         case = _mk(rp.get("case", "replay"), rp.get("cls", "replay"), rp["text"], rp.get("eff_degree"), None)
         row = rp["row"]
-        jobs.append({"case": case, "row": row, "opts": rp["opts"], "why": "replay", "excluded": bool(rp.get("excluded"))})
+        jobs.append({"case": case, "row": row, "opts": rp["opts"], "why": "replay", "excluded": bool(rp.get("excluded")), "phase_env": rp.get("phase_env")})
     else:
         specials = special_cases(rng, thorough)
         gauss = gauss_cases(rng, ctx.pick(12, 40))
@@ -486,6 +534,24 @@ def run(ctx):
             for row in (dict(base, a="u", G="i", W=128), dict(base, a="u", G="a", o="200", W=256), dict(base, a="u", G="i", W=64, t="d"),
                         dict(base, a="s", G="i", W=128), dict(base, a="s", G="a", o="200", W=256)):
                 add(c, row, "precision-cap")
+    # (G) the set-up of the secular driver (coq/Total/SecExtDefs.v): starting phase requested or not (C03_PHASE=n: no_phase, what the
+    #     command line does without -t, mps_check_data is then called; m: mp_phase, API only, "Unrecognized starting phase"),
+    #     inputs whose float phase raises exceptions (huge / tiny coefficients: restart in DPE), -m, crude mode, Jacobi packets,
+    #     secular-equation and Chebyshev inputs
+    if not ctx.replay:
+        setup_in = [x for x in specials if x["name"] in ("huge-int-const", "huge-int-lead", "huge-fp", "tiny-fp", "tiny-rat", "mixed-fp-cplx", "deg1-int", "xpow7",
+                                                         "mult-3-2", "sec-fp", "sec-deg1", "cheb-fp", "zerotrail", "zerolead3_1")] + gauss[:3]
+        setup_rows = [dict(base, a="s", G="i"), dict(base, a="s", G="a", o="30"), dict(base, a="s", G="i", m=True, o="100"), dict(base, a="s", G="i", c=True),
+                      dict(base, a="s", G="i", b=True), dict(base, a="s", G="a", o="30", t="d"), dict(base, a="s", G="c", i="50")]
+        for i, c in enumerate(setup_in):
+            for k, row in enumerate(setup_rows):
+                for pe in ((None, "n") if (i + k) % 4 else (None, "n", "m")):
+                    if pe and row.get("t"): continue
+                    jobs.append({"case": c, "row": dict(row), "opts": opts_of(row), "why": "secular-setup", "excluded": False, "phase_env": pe})
+        # the rest of the sweep: a secular solve without -t runs with no_phase (like the command line) in about half of the cases
+        for j in jobs:
+            if "phase_env" not in j:
+                j["phase_env"] = "n" if (j["row"]["a"] == "s" and j["row"].get("t") is None and rng.random() < 0.5) else None
     # every solve of the main sweep runs with ONE worker thread: reproducible runs (the thread pool's scheduling
     # is what made sanitizer reports come and go); threads are exercised by the separate group below
     for j in jobs:
@@ -494,7 +560,7 @@ def run(ctx):
     # trace subset (tie): small inputs; traced solves get small caps (-P 300, -W 16384) so that the acceptor, which
     # counts in unary, can evaluate the proved bound
     for j in jobs:
-        j["trace"] = (j["case"]["eff_degree"] or 0) <= 12 and (rng.random() < ctx.pick(0.4, 0.3) or j["why"] == "precision-cap") and j["why"] != "replay"
+        j["trace"] = (j["case"]["eff_degree"] or 0) <= 12 and (rng.random() < ctx.pick(0.4, 0.3) or j["why"] in ("precision-cap", "secular-setup")) and j["why"] != "replay"
         if j["trace"]:
             if j["row"].get("P") is None: j["row"]["P"] = 300
             if j["row"].get("W") is None: j["row"]["W"] = 16384
@@ -523,7 +589,8 @@ def run(ctx):
         i, j = ij
         path = os.path.join(workdir, "job%d.pol" % i)
         with open(path, "w") as f: f.write(j["case"]["text"])
-        j["r"] = run_one(binary, path, j["opts"], env, cap if cap else T1, wall)
+        jenv = dict(env, C03_PHASE=j["phase_env"]) if j.get("phase_env") else env
+        j["r"] = run_one(binary, path, j["opts"], jenv, cap if cap else T1, wall)
         try: os.remove(path)
         except OSError: pass
         return None
@@ -564,7 +631,9 @@ def run(ctx):
         for k, v in j["row"].items():
             if v not in (None, False): hist_opt["%s=%s" % (k, v)] += 1
         rp = {"case": c["name"], "cls": c["cls"], "text": c["text"] if len(c["text"]) < 200000 else c["text"][:200000], "opts": [o for o in j["opts"] if o != "-T"],
-              "row": j["row"], "eff_degree": c["eff_degree"], "excluded": j["excluded"], "wall": round(j["r"]["wall"], 2), "stderr": j["r"]["err"][-1500:]}
+              "row": j["row"], "eff_degree": c["eff_degree"], "excluded": j["excluded"], "wall": round(j["r"]["wall"], 2), "stderr": j["r"]["err"][-1500:],
+              "phase_env": j.get("phase_env")}
+        if j.get("phase_env"): hist_opt["starting_phase=%s" % {"n": "no_phase", "m": "mp_phase"}[j["phase_env"]]] += 1
         if klass == "timeout":
             if j["excluded"]:
                 stats["excluded-timeout"] += 1
@@ -632,6 +701,34 @@ def run(ctx):
                               % (ln, c["name"], " ".join(j["opts"]), src[:300]),
                               {"case": c["name"], "cls": c["cls"], "text": c["text"], "opts": [o for o in j["opts"] if o != "-T"], "row": j["row"],
                                "eff_degree": c["eff_degree"], "excluded": j["excluded"], "trace": src[:4000], "model": ln}, no_input=True)
+    # ---------------------------------------------------------------- tie of the extended secular skeleton (check_x): every traced
+    # secular solve again, now with the events of the set-up, the phase of every iteration, switch / raise, the cleanup
+    xlines = []; xjobs = []
+    for j in jobs:
+        if j.get("trace") and j["klass"] in ("ok", "solve-err") and j["row"]["a"] == "s":
+            ln = xtrace_line(j)
+            if ln is not None: xlines.append(ln); xjobs.append(j)
+    xstats = collections.Counter(); xevents = collections.Counter(); xsteps = 0; xsetup = collections.Counter()
+    if xlines:
+        outs = ctx.run_model_lines("total", xlines)
+        for ln, j, src in zip(outs, xjobs, xlines):
+            t = ln.split(); toks = src.split(";")[1].split()
+            for tk in toks: xevents[tk.split(":")[0]] += 1
+            hd = src.split(";")[0].split()
+            xsetup["kind=%s start_phase=%s crude=%s jacobi=%s avoid_mp=%s in_prec=%s" % (hd[9], hd[10], hd[11], hd[12], hd[8], "0" if hd[5] == "0" else ">0")] += 1
+            if t and t[0] == "OK":
+                xstats["accepted"] += 1; xsteps += int(t[1])
+                if len(toks) >= 4: nontrivial.add(("xtrace", src))
+            else:
+                xstats["rejected"] += 1
+                c = j["case"]
+                if xstats["rejected"] <= 8: ctx.log("ext trace rejected: %s | %s | %s %s phase=%s" % (ln, src[:500], c["name"], " ".join(j["opts"]), j.get("phase_env")))
+                # the property's own predicate (ends with roots or an error message, no crash) held for this run: broken correspondence
+                ctx.violation("correspondence:trace-rejected:secular-ext",
+                              "event trace of the real secular driver is not a run of the extended skeleton SecExtDefs.xstep (%s): %s with %s, C03_PHASE=%s; trace: %s"
+                              % (ln, c["name"], " ".join(j["opts"]), j.get("phase_env"), src[:300]),
+                              {"case": c["name"], "cls": c["cls"], "text": c["text"], "opts": [o for o in j["opts"] if o != "-T"], "row": j["row"],
+                               "eff_degree": c["eff_degree"], "excluded": j["excluded"], "phase_env": j.get("phase_env"), "trace": src[:4000], "model": ln}, no_input=True)
     cov = {"evaluations": len(alljobs), "distinct_nontrivial": len(nontrivial),
            "rule": "one evaluation = one (input, configuration) solve under ASan+UBSan; distinct+non-trivial = distinct (input, options) that ended ok or solve-err",
            "outcomes": dict(stats), "class_histogram": dict(hist_cls), "option_histogram": dict(hist_opt),
@@ -642,11 +739,13 @@ def run(ctx):
            "pairwise_rows": 0 if ctx.replay else len(rows), "exports_read_by_the_light_parser": sum(1 for j in alljobs if j.get("light")),
            "trace_tie": {"traced_solves": len(tlines), "verdicts": dict(tstats), "longest_trace_events": tmax, "skeleton_steps_total": tsteps,
                          "closest_to_bound": ({"steps": closest[1], "bound": closest[2]} if closest else None)},
-           "multithreaded_group": dict(mtstats), "programs": len(alljobs), "disagreements_checked": sum(v for k, v in tstats.items() if k.startswith("rejected")),
+           "trace_tie_secular_ext": {"traced_solves": len(xlines), "verdicts": dict(xstats), "skeleton_steps_total": xsteps,
+                                     "event_histogram": dict(xevents), "configuration_histogram": dict(xsetup)},
+           "multithreaded_group": dict(mtstats), "programs": len(alljobs), "disagreements_checked": sum(v for k, v in tstats.items() if k.startswith("rejected")) + xstats["rejected"],
            "samples": samples,
-           "trusted_base": ["Coq kernel (skeleton theorems: no axioms)", "the control skeletons in coq/Total are hand-written models of unisolve/main.c, unisolve/solve.c, common/improve.c, secsolve/secular-ga.c; numerics are an arbitrary oracle",
+           "trusted_base": ["Coq kernel (skeleton theorems: no axioms)", "the control skeletons in coq/Total (SkelDefs.v, SecExtDefs.v) are hand-written models of unisolve/main.c, unisolve/solve.c, common/improve.c, secsolve/secular-ga.c (+ the exception flag of secsolve/secular-iteration.c); numerics are an arbitrary oracle",
                             "memory safety / no signal: observed by ASan+UBSan (-fno-sanitize=shift-base) on the sweep only, no theorem",
-                            "extraction ExtrOcamlBasic+ExtrOcamlNativeString; ocaml/total_driver.ml; harness/vf_solve.c (-T trace filtered from the library's debug log, -P sets max_pack); lib/solve.py parser"]}
+                            "extraction ExtrOcamlBasic+ExtrOcamlNativeString; ocaml/total_driver.ml; harness/c03_solve.c = harness/vf_solve.c + starting phase override (C03_PHASE) + EVX lines (-T trace filtered from the library's debug log, -P sets max_pack); lib/solve.py parser"]}
     return ctx.finish("proof", cov,
                       ["termination of the real numerics is observed under a wall-clock cap, not proved: the skeleton theorems bound control steps for every oracle",
                        "search sets with a root on the boundary (or unknown roots) are excluded from the termination clause",
